@@ -13,6 +13,8 @@ Round 3: no configuration method or initial-point setter reads a setting owned
 by another one; the raw cost gets a copy in-process as it does under a process
 map; the two closures the ensemble maps (_step / _solve) are siblings around
 their run call.
+Round 4: no function of the solver modules keeps, mutates or hands on an object
+built once as a default argument.
 NOT decided: identity of trajectories, step-wise vs run-to-completion equality,
 process maps, hash randomisation of message strings.
 """
